@@ -475,7 +475,7 @@ func (g *goGen) expr(e *Expr, inOld bool) string {
 			return name + "(" + strings.Join(as, ", ") + ")"
 		case "ite":
 			return fmt.Sprintf("govcIte(%s, %s, %s)", g.expr(args[0], inOld), g.expr(args[1], inOld), g.expr(args[2], inOld))
-		case "fresh", "typeis", "arr", "addr", "off", "ref", "elems", "modsentinel", "xzsentinel", "implements", "unboxed":
+		case "fresh", "typeis", "arr", "addr", "disjoint", "off", "ref", "elems", "modsentinel", "xzsentinel", "implements", "unboxed":
 			g.fail = "builtin " + name
 			return "false"
 		}
